@@ -356,6 +356,9 @@ def signature_matches(sig, v):
     return True
 
 
+MAX_REPLAYS = 200
+
+
 class Verdict:
     def __init__(self, prop):
         self.prop = prop
@@ -375,7 +378,12 @@ class Verdict:
                 if f not in self.known_list:
                     self.known_list.append(f)
                 return False
-        path = replay_writer()
+        # every violation is counted and reported; replay files are written for the first MAX_REPLAYS of a run
+        # (a broken kernel can deviate on tens of thousands of enumerated cases), the rest point to the last one
+        if len(self.violations) < MAX_REPLAYS:
+            path = replay_writer()
+        else:
+            path = self.violations[-1]["replay"]
         v["replay"] = path
         self.violations.append(v)
         return True
